@@ -358,6 +358,18 @@ static void run_case(Rng& r, Ctx& c)
         cmp3(c, pfx, key, est, sd, vz, R.est, R.var, R.varz, tolE, tolV, what, "ref", estKey);
       else
         cmp3(c, pfx, key, est, VectorDouble(), VectorDouble(), R.est, {}, {}, tolE, tolV, what, "ref", estKey);
+      // lazy cache: the data vector is replaced on the live object (setData -> resetLinkedToZ); the estimate must follow
+      if (reuse && t == m - 1)
+      {
+        VectorDouble Z2(Z.size());
+        for (auto& v : Z2) v = r.uni(-3, 3);
+        RefSol R2 = refSolve(Sigma, order >= 0 ? &X : nullptr, Sigma0, order >= 0 ? &X0 : nullptr, Sigma00, Z2, addMean);
+        K.setData(&Z2, &means);
+        VectorDouble est2 = K.getEstimation();
+        cmp3(c, pfx + "-newdata", key + ":after-setData", est2, VectorDouble(), VectorDouble(), R2.est, {}, {}, 1e3 * EPS * R.kappa * 3.0, tolV,
+             what, "ref", estKey.empty() ? "" : estKey + ":after-setData");
+        K.setData(&Z, &means);
+      }
       // (S) standard kriging
       StdOut S = stdKriging(data, tg, ms);
       if (S.rc != 0 || S.est.size() != (size_t)nvar || undef(S.est[0])) { c.skip("std-kriging-refused"); continue; }
